@@ -208,6 +208,9 @@ class Ctx:
         shutil.rmtree(self.work, ignore_errors=True)
         os.makedirs(self.work, exist_ok=True)
         os.makedirs(REPLAYS, exist_ok=True)
+        for fn in os.listdir(REPLAYS):
+            if fn.startswith(pid + "-"):
+                os.remove(os.path.join(REPLAYS, fn))
         self.states = 0
         self.transitions = 0
         self.traces = 0
